@@ -31,8 +31,24 @@ def _f(style, parts, binary=False, body=None):
     return {"style": style, "binary": binary, "parts": parts, "body": body}
 
 
+def _snippet_file():
+    """A file whose only information sits in a snippet far behind the 4 KiB
+    window, with the snippet marker straddling byte 4096."""
+    unit = "filler line 0123456789\n"
+    pad = ""
+    while len(pad) + len(unit) <= 4090:
+        pad += unit
+    pad += "x" * (4090 - len(pad) - 1) + "\n"
+    text = pad + "SPDX-SnippetBegin\n" + unit * 200 + "SPDX-SnippetCopyrightText: 2019 Snip\nSPDX-License-Identifier: 0BSD\nSPDX-SnippetEnd\n"
+    assert text.index("SPDX-SnippetBegin") == 4090
+    f = _f(None, [part("H", ["2019 Snip"], ["0BSD"])])
+    f["raw"] = text
+    return f
+
+
 def base_headers():
     return {"name": "headers", "files": {
+        "src/snippet.txt": _snippet_file(),
         "src/f.py": _f("#", [part("H", [C_F], ["MIT"])]),
         "src/g.c": _f("c", [part("H", [C_G], ["0BSD"])]),
         "docs/h.html": _f("html", [part("H", [C_H], ["MIT"])]),
@@ -233,7 +249,7 @@ def render(proj):
             if p["broken"]:
                 lines.append("SPDX-License-Identifier: MIT AND AND")
             if p["mech"] == "H":
-                if lines:
+                if lines and f.get("raw") is None:
                     head += _comment(f["style"], lines)
             elif p["mech"] == "S":
                 recipe[path + ".license"] = "".join(x + "\n" for x in lines) if lines else {"empty": True}
@@ -253,7 +269,9 @@ def render(proj):
                 if not (p["c"] and len(p["l"]) == 1):
                     raise AssertionError("a dep5 paragraph needs copyright and exactly one licence expression")
                 dep5.append(f"Files: {p['tpath']}\nCopyright: " + "\n ".join(p["c"]) + f"\nLicense: {p['l'][0]}\n")
-        if f["binary"]:
+        if f.get("raw") is not None:
+            recipe[path] = f["raw"]
+        elif f["binary"]:
             recipe[path] = {"hex": PNG_HEX}
         else:
             body = f["body"] if f["body"] is not None else BODY.get(f["style"], "body\n")
